@@ -26,6 +26,9 @@ type Guard struct {
 	// in the program but is not on this path" (a violation) from "nothing of that name exists
 	// any more" (renamed or restructured: undecided).
 	Callee func(string) bool
+	// SkipHelper (optional): repository functions that do not count as passing the guard on
+	// the caller's behalf even though they pass it internally (they apply it to something else).
+	SkipHelper func(*ssa.Function) bool
 }
 
 // errNonNilFuncs: functions known to always return a non-nil error.
@@ -315,7 +318,7 @@ func helperSite(i *ssa.If, g Guard) (passOnTrue bool, ok bool) {
 	if v, trueMeansNil, isNil := NilCheck(i.Cond); isNil {
 		if c, idx := CallOf(Origin(v)); c != nil {
 			if cc, isCall := c.(*ssa.Call); isCall {
-				if h := Followable(cc, nil); h != nil && idx == ErrIndex(h) && helperImplies(h, g, false) {
+				if h := Followable(cc, nil); h != nil && idx == ErrIndex(h) && (g.SkipHelper == nil || !g.SkipHelper(h)) && helperImplies(h, g, false) {
 					return trueMeansNil, true
 				}
 			}
@@ -374,7 +377,7 @@ func Gate(fn *ssa.Function, g Guard, success SuccessFn) GateResult {
 			// `return helper(...)`: the guard may be passed inside the helper
 			if sp.FromCall != nil {
 				if cc, isCall := sp.FromCall.(*ssa.Call); isCall {
-					if h := Followable(cc, nil); h != nil && helperImplies(h, g, false) {
+					if h := Followable(cc, nil); h != nil && (g.SkipHelper == nil || !g.SkipHelper(h)) && helperImplies(h, g, false) {
 						res.TailSites++
 						continue
 					}
